@@ -74,6 +74,58 @@ def _single_exit(fn):
     return body
 
 
+def _as_expression(fn):
+    """A helper whose body only decides a value:  [if c: return v]* ; return w   ->   one expression (None otherwise).
+    `if c: return True` ... `return False` becomes `c or ...`; other constants / expressions become conditional expressions."""
+    body = [s for s in fn.body if not (isinstance(s, ast.Expr) and isinstance(s.value, ast.Constant))]
+    if not body or not isinstance(body[-1], ast.Return) or body[-1].value is None:
+        return None
+    for x in ast.walk(fn):
+        if x is not fn and isinstance(x, (ast.FunctionDef, ast.AsyncFunctionDef, ast.Lambda, ast.Yield, ast.YieldFrom, ast.Global, ast.Nonlocal,
+                                          ast.NamedExpr, ast.Await)):
+            return None
+    expr = body[-1].value
+
+    def fold(stmts, tail):
+        """expression for `stmts; <tail>` where stmts are if-return statements only"""
+        e = tail
+        for st in reversed(stmts):
+            if not isinstance(st, ast.If):
+                return None
+            tb = fold_block(st.body, None)
+            if tb is None:
+                return None
+            if st.orelse:
+                fb = fold_block(st.orelse, None)
+                if fb is None:
+                    return None
+            else:
+                fb = e
+            if fb is None:
+                return None
+            c = st.test
+            if isinstance(tb, ast.Constant) and tb.value is True and _boolish(fb):
+                e = ast.BoolOp(op=ast.Or(), values=[c, fb])
+            elif isinstance(tb, ast.Constant) and tb.value is False and _boolish(fb):
+                e = ast.BoolOp(op=ast.And(), values=[ast.UnaryOp(op=ast.Not(), operand=c), fb])
+            else:
+                e = ast.IfExp(test=c, body=tb, orelse=fb)
+        return e
+
+    def fold_block(stmts, tail):
+        if stmts and isinstance(stmts[-1], ast.Return) and stmts[-1].value is not None:
+            return fold(stmts[:-1], stmts[-1].value)
+        if tail is None:
+            return None
+        return fold(stmts, tail)
+    return fold(body[:-1], expr)
+
+
+def _boolish(e):
+    return (isinstance(e, ast.Constant) and isinstance(e.value, bool)) or isinstance(e, (ast.Compare, ast.BoolOp)) or \
+        (isinstance(e, ast.UnaryOp) and isinstance(e.op, ast.Not))
+
+
 class _Subst(ast.NodeTransformer):
     def __init__(self, names, exprs):
         self.names = names          # local name -> new local name
@@ -84,6 +136,44 @@ class _Subst(ast.NodeTransformer):
             return ast.copy_location(_clone(self.exprs[node.id]), node)
         if node.id in self.names:
             return ast.copy_location(ast.Name(id=self.names[node.id], ctx=node.ctx), node)
+        return node
+
+
+class _ExprInliner(ast.NodeTransformer):
+    def __init__(self, caller, ecands):
+        self.caller = caller
+        self.ecands = ecands
+        self.done = []
+
+    def visit_FunctionDef(self, node):
+        return node
+
+    visit_Lambda = visit_FunctionDef
+
+    def visit_Call(self, node):
+        self.generic_visit(node)
+        f = node.func
+        if isinstance(f, ast.Attribute) and isinstance(f.value, ast.Name) and f.value.id == self.caller.self_name and f.attr in self.ecands:
+            helper, expr = self.ecands[f.attr]
+            bound = _bind(helper, node)
+            if bound is None:
+                return node
+            uses = {}
+            for x in ast.walk(expr):
+                if isinstance(x, ast.Name) and x.id in bound:
+                    uses[x.id] = uses.get(x.id, 0) + 1
+            if any(not _is_simple(a) and uses.get(p, 0) > 1 for p, a in bound.items()):
+                return node
+            if any(not _is_simple(a) for a in bound.values()) and len([a for a in bound.values() if not _is_simple(a)]) > 1:
+                return node                             # keep the evaluation order of several effectful arguments
+            names = {}
+            if helper.self_name is not None and helper.self_name != self.caller.self_name:
+                names[helper.self_name] = self.caller.self_name
+            new = _Subst(names, bound).visit(_clone(expr))
+            ast.copy_location(new, node)
+            ast.fix_missing_locations(new)
+            self.done.append(helper.qual)
+            return new
         return node
 
 
@@ -138,6 +228,31 @@ def inline_unknown_helpers(prog, known):
                     continue                              # recursive
                 cands[name] = (h, body)
                 cands[mangled] = (h, body)
+            # helpers that only decide a value are substituted as expressions wherever they are called
+            ecands = {}
+            for name, h in ci.methods.items():
+                if not name.startswith("_") or (name.startswith("__") and name.endswith("__")) or h.qual in known or h.is_classmethod:
+                    continue
+                if h.self_name is None and not h.is_static:
+                    continue
+                if len(prog.overrides(ci, name)) != 1:
+                    continue
+                e = _as_expression(h.node)
+                if e is None:
+                    continue
+                mangled = "_%s%s" % (ci.name.lstrip("_"), name) if name.startswith("__") else name
+                if any(isinstance(x, ast.Attribute) and x.attr in (name, mangled) for x in ast.walk(h.node)):
+                    continue
+                ecands[name] = (h, e)
+                ecands[mangled] = (h, e)
+            if ecands:
+                for m in ci.methods.values():
+                    if any(m is h for (h, _e) in ecands.values()):
+                        continue
+                    tr = _ExprInliner(m, ecands)
+                    m.node.body = [tr.visit(st) for st in m.node.body]
+                    for hq in tr.done:
+                        done.append((m.qual, hq, 0))
             if not cands:
                 continue
             for m in ci.methods.values():
